@@ -96,12 +96,14 @@ def implFilters (rows : List Row) : List Pat → List Row
   | .filter c :: rest => implFilters (rows.filter c.eval) rest
   | _ :: rest => implFilters rows rest
 
-theorem lowerFilters_exec (db : DB) (ctx : Ctx) (inc : List Row) (plan : Plan) (elems : List Pat) :
-    exec db (lowerFilters plan elems) ctx inc = implFilters (exec db plan ctx inc) elems := by
+theorem lowerFilters_exec (db : DB) (ctx : Ctx) (inc : List Row) (algs : List JoinAlg) (plan : Logical)
+    (elems : List Pat) :
+    exec db (implement algs (lowerFilters plan elems)).1 ctx inc =
+      implFilters (exec db (implement algs plan).1 ctx inc) elems := by
   induction elems generalizing plan with
   | nil => simp [lowerFilters, implFilters]
   | cons e rest ih =>
-    cases e <;> simp only [lowerFilters, implFilters, ih, exec_filter]
+    cases e <;> simp only [lowerFilters, implFilters, ih, implement, exec_filter]
 
 /-- **group-scoped FILTER**: on solutions that bind the filters' variables the deferred selections keep
     exactly what the algebra's filters keep -/
